@@ -223,6 +223,12 @@ def gen_writer_scenario(rng):
         else:
             ops.append(f"w close {rng.choice([0, 1, 1])}")
             closed = True
+    if delay == 0 and not closed and mx in (0, -1, -5, 16) and not any(o == "w failnext" for o in ops) \
+            and rng.random() < 0.8:
+        # close(flush) arriving while the flusher is inside a slow transport write, more queued behind
+        ops.append("w gclose " + " ".join(item() for _ in range(rng.choice([3, 4, 5]))))
+        ops.append("w enq " + item())
+        return ops
     if rng.random() < 0.6:
         if rng.random() < 0.5:
             ops.append(f"w sleep {3 * max(delay, 1)}")
@@ -300,6 +306,16 @@ def writer_oracle(sc, out):
         direct_ids = []
         if ws[0] == "direct":
             direct_ids = [int(ws[1].split(":")[0])]
+        if ws[0] == "gclose":
+            items = [(int(w.split(":")[0]), int(w.split(":")[1])) for w in ws[1:]]
+            for i, s in items:
+                sizes[i] = s
+            if kv.get("overlap") != "0":
+                return (f"`{op}`: two transport writes were in progress at the same time (close flushed while an "
+                        f"earlier batch was still being written)")
+            if not closed:
+                accepted += [i for i, _ in items]
+                closed, closed_flush = True, True
         if ws[0] in ("enq", "enqmany"):
             items = [(int(w.split(":")[0]), int(w.split(":")[1])) for w in ws[1:]]
             for i, s in items:
@@ -343,9 +359,9 @@ def writer_oracle(sc, out):
             delivered += ids
         if ws[0] == "close" and not failed and closed_flush and ws[1] != "0" and delivered != accepted                 and not (closed and closed_flush is False):
             return f"close with flush left {len(accepted) - len(delivered)} queued messages undelivered"
-        if ws[0] == "close" and not failed and closed_flush and delivered != accepted:
+        if ws[0] in ("close", "gclose") and not failed and closed_flush and delivered != accepted:
             return f"close with flush left {len(accepted) - len(delivered)} queued messages undelivered"
-        if closed and not failed and ws[0] != "close" and any(not f for _, f, _ in calls) and ws[0] != "direct":
+        if closed and not failed and ws[0] not in ("close", "gclose") and any(not f for _, f, _ in calls) and ws[0] != "direct":
             return f"transport written at `{op}` after close"
         if ws[0] == "sleep" and not closed and not failed and not slow_seen and not failarmed:
             need = 3 * delay if delay > 0 else 0
